@@ -5,7 +5,8 @@
 EXTENDS BlockWire, TLC, Json
 
 CONSTANTS FULLGRID,     \* header fields: full product of the boundary values (TRUE) or one field at a time
-          SIZES,        \* block sizes (numbers of transactions)
+          SIZES,        \* block sizes (numbers of transactions): every witness pattern x every root kind
+          BIG,          \* big block sizes (around the 1-byte/3-byte count boundary): honest and alien root only
           EMIT
 VARIABLE c
 
@@ -70,6 +71,7 @@ AllRootKinds == {"good", "alien", "flip0", "flip255", "long", "swap", "swaplast"
                  "single", "nodup", "wtxid"}
 BlockKeys == { t \in SIZES \X {"none", "second", "all"} \X AllRootKinds :
                  t[3] \in RootKinds(t[1], t[2]) /\ (t[2] = "none" \/ t[1] >= 2) }
+             \cup (BIG \X {"none"} \X {"good", "alien"}) \cup (BIG \X {"all"} \X {"good", "wtxid"})
 BlockCases == { [kind |-> "block", n |-> t[1], sw |-> t[2], rk |-> t[3], txs |-> Txs(t[1], t[2]),
                  h |-> [Base EXCEPT !.root = RootOf(t[3], Txs(t[1], t[2]))]] : t \in BlockKeys }
        \cup { [kind |-> "block", n |-> t[1] + t[2], sw |-> "none", rk |-> "dupquirk", txs |-> DupTail(t[1], t[2]),
